@@ -10,7 +10,7 @@ __le__ / __lt__ / __eq__ / combine / get_closer_logic / most_generic_logic are i
   most_generic_logic(S) is in S and above every element of S."""
 import itertools
 
-from ..absint import AbsRaise, AObj, Unsupported, ListIter
+from ..absint import AbsRaise, AObj, Unsupported, ListIter, ClassRef
 from ..common import get_repo, parallel_map
 from .. import proc
 from ..proc import Shape, BOOL
@@ -93,6 +93,30 @@ def _job(part):
                     out.append(("bad", "strict|%s|%s" % (name(a), name(b)), "%s < %s disagrees with <= and ==" % (name(a), name(b))))
                 n_ok += 1
             out.append(("ok", "logic order", "%d logics, %d pairs" % (len(logics), n_ok)))
+        elif part == "closer-smtlib-anonymous":
+            # get_closer_smtlib_logic asked, one after the other, about anonymous logics that share one name (what the theory oracle
+            # hands out: Logic(name="Detected Logic", ...)): each answer is the one get_closer_logic gives for that logic alone
+            fn = G("get_closer_smtlib_logic")
+            closer = G("get_closer_logic")
+            n_ok = 0
+            for t in logics[::2] + logics[1::2]:
+                anon = it.instantiate(ClassRef("pysmt.logics.Logic"), ["Detected Logic", ""],
+                                      {"quantifier_free": t.attrs.get("quantifier_free"), "theory": t.attrs["theory"]})
+                outs = []
+                for f_, args in ((fn, [anon]), (closer, [list(smtlib_l), t])):
+                    try:
+                        outs.append(("returns", it.call(f_, args)))
+                    except AbsRaise as ex:
+                        outs.append(("raises", ex.cls_name))
+                (k1, r1), (k2, r2) = outs
+                if name(t) in ("QF_BOOL", "BOOL"):
+                    n_ok += 1           # documented special cases of the function
+                elif k1 != k2 or (k1 == "returns" and r1 is not r2):
+                    out.append(("bad", "closer-smtlib-anonymous|%s" % name(t), "get_closer_smtlib_logic(an unnamed logic with the theory of %s) %s %s; "
+                                "get_closer_logic over the SMT-LIB logics %s %s" % (name(t), k1, name(r1) if k1 == "returns" else r1, k2, name(r2) if k2 == "returns" else r2)))
+                else:
+                    n_ok += 1
+            out.append(("ok", part, "%d logics asked in sequence" % n_ok))
         elif part == "families":
             # the derived families solvers declare their supported logics with: each is the sub-family of the
             # final table of pySMT logics its name states
@@ -209,7 +233,7 @@ def _job(part):
     return res[0].detail
 
 
-PARTS = ["theory-order", "combine", "logic-order", "closer-smtlib", "closer-pysmt", "closer-subset", "closer-iterator", "families", "factory-select"]
+PARTS = ["theory-order", "combine", "logic-order", "closer-smtlib", "closer-pysmt", "closer-subset", "closer-iterator", "closer-smtlib-anonymous", "families", "factory-select"]
 
 
 def run(ctx):
